@@ -24,13 +24,14 @@ from ..ref import rootint as ri
 
 ID = 'C09'
 LEVEL = 'exploration'
-DECIDING = ['tap:find_root', 'tap:quad', 'roots_judged', 'integrals_judged', 'plain_number_integrals_judged', 'repeated_object_cases', 'histories_judged']
+DECIDING = ['tap:find_root', 'tap:quad', 'roots_judged', 'integrals_judged', 'plain_number_integrals_judged', 'repeated_object_cases', 'histories_judged', 'function_histories_judged']
 RULE = ('cases: find_root on 9 families (x^n-d, exp(ax)-d, a log x - d, tanh(ax)-d, monotone cubic; vector-valued d: d0 e^x - d1, d0 x^2 - d1, '
         'd0 x + d1 - d2, x^3 + d0 x - d1) with d given as Obs / list / array, entries on the same chains (identical / nested / overlapping '
         'lists, replica subsets), different ensembles or covariance inputs; quad on polynomial / exponential (also half line) / '
         'trigonometric integrands (also with scipy weight=cos|sin) x every subset of {parameters (none, some, all), lower limit, upper limit} being observables x '
         '{same, different ensembles, covariance inputs}, reversed limits, scipy options; the same observable (same object or equal copy) in two slots (parameter-parameter, parameter-limit, '
-        'limit-limit; twice in a vector d); call histories with a twin input of equal names / lists / value; non-trivial: root with non-constant sensitivity '
+        'limit-limit; twice in a vector d); call histories with a twin input of equal names / lists / value; one integrand / residual function object used for 2-3 calls in a row '
+        'with other parameter values, data and limits; non-trivial: root with non-constant sensitivity '
         'compared in its fluctuations; integral with >= 1 observable limit or >= 2 observable parameters; '
         'distinct = digest of (family, constants, operand data)')
 ASSUMPTIONS = ['values: |x - x_exact| <= 1e-7 scale (fsolve) / 1e-9 int|f| (quadrature); sensitivities rtol 1e-6 (roots) / 1e-8 (integrals)',
@@ -270,6 +271,8 @@ def case_root(ctx, rng, name, layout, repeat=None):
     pe = PE
     nd, res, inv, sens = ri.ROOTS[name]
     c, spec = root_problem(rng, name)
+    if 'root' in SHARED:
+        c = dict(SHARED['root'][0])
     ops = Operands(rng, ctx.tier, layout)
     if repeat is not None:
         spec[repeat[1]] = spec[repeat[0]]
@@ -290,7 +293,7 @@ def case_root(ctx, rng, name, layout, repeat=None):
     guess = x_exact * (1.0 + float(rng.uniform(-0.25, 0.25))) if abs(x_exact) > 1e-3 else 0.1
     if rng.random() < 0.2:
         guess = np.float64(guess)
-    func = lib_residual(name, c)
+    func = lib_residual(name, c) if 'root' not in SHARED else SHARED['root'][1]
     if nd == 1:
         form = str(rng.choice(['Obs', 'list', 'array']))
         arg = d[0] if form == 'Obs' else ([d[0]] if form == 'list' else np.array([d[0]]))
@@ -389,20 +392,24 @@ def lib_integrand(name, c, npar):
     raise ValueError(name)
 
 
+SHARED = {}     # function objects shared by the calls of one history case: {'quad': (npar, constants, func), 'root': (constants, func)}
+
+
 def integral_problem(rng, name, half_line=False):
     sgn = float(rng.choice([-1, 1]))
+    fixed = SHARED.get('quad')
     if name == 'poly':
-        npar = int(rng.integers(1, 5))
+        npar = int(rng.integers(1, 5)) if fixed is None else fixed[0]
         p = [float(rng.uniform(0.3, 2.0)) * float(rng.choice([-1, 1])) for _ in range(npar)]
         c = {}
     elif name == 'exp':
-        npar = 2 if half_line else int(rng.choice([2, 3]))
+        npar = (2 if half_line else int(rng.choice([2, 3]))) if fixed is None else fixed[0]
         p = [sgn * float(rng.uniform(0.4, 2.0)), float(rng.uniform(0.4, 1.8))] + ([float(rng.uniform(-1, 1))] if npar == 3 else [])
         c = {}
     else:
         npar = 3
         p = [sgn * float(rng.uniform(0.4, 2.0)), float(rng.uniform(0.5, 2.0)), float(rng.uniform(-1.5, 1.5))]
-        c = {'w': float(rng.uniform(0.5, 2.0))}
+        c = {'w': float(rng.uniform(0.5, 2.0))} if fixed is None else dict(fixed[1])
     a = float(rng.uniform(-1.0, 1.0))
     b = a + float(rng.uniform(0.5, 2.5))
     if half_line:
@@ -480,7 +487,7 @@ def case_quad(ctx, rng, name, psel, a_obs, b_obs, layout, half_line=False, weigh
     pv = [x.value if is_obs(x) else x for x in pin]
     av = ain.value if is_obs(ain) else ain
     bv = bin_.value if is_obs(bin_) else bin_
-    func = lib_integrand(name, c, npar)
+    func = lib_integrand(name, c, npar) if 'quad' not in SHARED else SHARED['quad'][2]
     kw = {}
     r = rng.random()
     if r < 0.15:
@@ -559,6 +566,9 @@ def case_quad(ctx, rng, name, psel, a_obs, b_obs, layout, half_line=False, weigh
             hyp['parameter-terms-ignore-the-weight-options'] = list(unw[:npo]) + list(grads[npo:])
             hyp['limit-terms-ignore-the-weight-function'] = list(grads[:npo]) + list(unw[npo:])
             hyp['parameter-and-limit-terms-ignore-the-weight-options'] = list(unw)
+        if SHARED.get('first_pv') is not None and weight is None and len(SHARED['first_pv']) == len(pv):
+            stale = ri.gradient(name, SHARED['first_pv'], av, bv, c, mask, False, False)
+            hyp['parameter-terms-use-the-parameter-values-of-an-earlier-call-with-the-same-function-object'] = list(stale) + list(grads[sum(mask):])
         if len(set(id(x) for x in ins)) < len(ins):
             last = {id(x): k_ for k_, x in enumerate(ins)}
             hyp['derivatives-of-an-observable-in-several-slots-overwritten-instead-of-summed'] = [g_ if last[id(x)] == k_ else 0.0 for k_, (x, g_) in enumerate(zip(ins, grads))]
@@ -580,6 +590,8 @@ def case_quad(ctx, rng, name, psel, a_obs, b_obs, layout, half_line=False, weigh
         again = pe.integrate.quad(func, parg, ain, bin_, **kw)
         ctx.count('histories_judged')
         ctx.require(is_obs(again[0]) and obs_digest(again[0]) == obs_digest(res), 'quad:result-depends-on-call-history', {'what': what})
+    if 'quad' in SHARED and SHARED.get('first_pv') is None:
+        SHARED['first_pv'] = list(pv)
     ctx.sample({'call': 'quad', 'weight': weight, 'wvar': wvar, 'family': name, 'p': pv, 'a': av, 'b': bv, 'observable_parameters': mask, 'a_obs': a_obs, 'b_obs': b_obs,
                 'layout': layout, 'options': kw, 'value': res.value, 'exact': ref['value'], 'gradient': grads})
 
@@ -606,6 +618,31 @@ def case_quad_other_weight(ctx, rng, which):
     ctx.violation('quad:limit-terms-ignore-the-weight-function', {'weight': weight, 'wvar': wvar, 'limits': which,
                                                                    'note': 'returned a result although the limit term needs the weight function',
                                                                    'result': repr(got[0])[:80]})
+
+
+def case_function_history(ctx, rng, what, name):
+    """ONE function object (integrand / residual defined once) is used for 2-3 calls in a row with different central parameter
+    values, different data and different limits; every call is judged by its own closed form (a result that remembers anything of
+    an earlier call with the same function object - cached derivative wrappers, closures over earlier values - is wrong)."""
+    ncalls = int(rng.integers(2, 4))
+    ctx.cell('function_history', what, name, ncalls)
+    try:
+        if what == 'quad':
+            npar, _, _, _, c = integral_problem(rng, name)
+            if name != 'poly':
+                npar = 3 if name == 'trig' else int(rng.choice([2, 3]))
+            SHARED['quad'] = (npar, c, lib_integrand(name, c, npar))
+            for k_ in range(ncalls):
+                psel = str(rng.choice(['some', 'all', 'all'])) if npar > 1 else 'all'
+                case_quad(ctx, rng, name, psel, bool(rng.integers(0, 2)), bool(rng.integers(0, 2)), str(rng.choice(['same', 'different', 'covariance'])))
+        else:
+            c, _ = root_problem(rng, name)
+            SHARED['root'] = (c, lib_residual(name, c))
+            for k_ in range(ncalls):
+                case_root(ctx, rng, name, str(rng.choice(LAYOUTS)))
+        ctx.count('function_histories_judged')
+    finally:
+        SHARED.clear()
 
 
 def abs_integral(f, p, a, b, c):
@@ -682,6 +719,10 @@ def plan(tier):
     for which in ('a', 'b', 'ab'):
         p.append(('quadother:%s' % which, 3 * m))
     for name in ri.INTEGRANDS:
+        p.append(('funchist:quad:%s' % name, 12 * m))
+    for name in ri.ROOTS:
+        p.append(('funchist:root:%s' % name, 4 * m))
+    for name in ri.INTEGRANDS:
         for rep in ('pp', 'pa', 'pb', 'ab'):
             p.append(('quadrep:%s:%s' % (name, rep), (5 if rep != 'ab' else 2) * m))
     for name, i, j in (('vec_linear', 0, 2), ('vec_linear', 1, 2), ('vec_cubic', 0, 1), ('vec_quadratic', 0, 1), ('vec_ratio_exp', 0, 1)):
@@ -701,6 +742,8 @@ def run_case(ctx, kind, idx, rng):
         case_root(ctx, rng, k[1], k[2])
     elif k[0] == 'quad':
         case_quad(ctx, rng, k[1], k[2], bool(int(k[3])), bool(int(k[4])), k[5])
+    elif k[0] == 'funchist':
+        case_function_history(ctx, rng, k[1], k[2])
     elif k[0] == 'quadrep':
         case_quad(ctx, rng, k[1], str(rng.choice(PSEL)), bool(rng.integers(0, 2)), bool(rng.integers(0, 2)), str(rng.choice(['same', 'different', 'covariance'])), repeat=k[2])
     elif k[0] == 'rootrep':
